@@ -895,7 +895,7 @@ def check_c04(c, af, a, mf):
         return {"why": f"declared instance {missing[0]} has no accessor chain", "finding": None}
     # the async twin visits and reports exactly what the blocking one does (the facts carry its list only where it differs)
     for b in af["blocks"]:
-        if "read_all_async" in b:
+        if "read_all_async" in b and isinstance(b["read_all_async"], list):
             d = next((i for i, (x, y) in enumerate(zip(b["read_all_async"], b["read_all"])) if x != y), min(len(b["read_all_async"]), len(b["read_all"])))
             return {"why": f"read_all_registers_async of block {b['name']} differs from read_all_registers at item {d}: "
                            f"{json.dumps(b['read_all_async'][d:d+1])[:200]} vs {json.dumps(b['read_all'][d:d+1])[:200]}", "finding": None}
